@@ -235,63 +235,7 @@ def run(repo, rep, tier):
                             f"{why}: the guard must be `isnan(factor) or factor <= 0` (evaluated over factor classes NaN/<0/0/>0)",
                             stmt=f"factor class {cls}")
         # ---------------- R8.2
-        fill = repo.own_method(c, "fill")
-        tables = degree_table(repo, c, m, fill)
-        if len(tables) != 1:
-            raise AnalysisError(f"{c.name}: homogeneity degrees of the accumulators are not uniquely determined by fill ({tables})")
-        deg = tables[0]
-        dict_fields = [s for s, k in m.slot_kind.items() if k == "dict"] + (["values"] if m.name == "Bag" else [])
-        ft = FieldTaint(repo, c, f, [sn], dict_fields, extra_roots=[])
-        # result variable(s): locals assigned from self.zero() or a constructor
-        outs = set()
-        for n in walk_local_stmt(f.node):
-            if isinstance(n, ast.Assign) and len(n.targets) == 1 and isinstance(n.targets[0], ast.Name) and isinstance(n.value, ast.Call):
-                outs.add(n.targets[0].id)
-        ft = FieldTaint(repo, c, f, [sn], dict_fields, extra_roots=outs)
-
-        def mults():
-            """[(labels of the non-factor operand, node)] for every `x * factor` / `factor * x`"""
-            out = []
-
-            def visit(node, env):
-                if isinstance(node, ast.BinOp) and isinstance(node.op, ast.Mult):
-                    for a, b in ((node.left, node.right), (node.right, node.left)):
-                        if isinstance(a, ast.Name) and a.id == fname:
-                            out.append((ft.L(b, env), node))
-            ft.visit_exprs(f.node, visit)
-            return out
-
-        ms = mults()
-        for fld in m.acc:
-            stores = [(labs, node, kind) for o in outs for (labs, node, kind) in ft.field_stores.get((o, fld), [])]
-            scaled = any(any(p == sn and fl == fld and fv == "full" for (p, fl, fv, z) in labs) for labs, node in ms)
-            plain = False
-            for labs, node, kind in stores:
-                v = node.value
-                if isinstance(v, ast.Attribute) and isinstance(v.value, ast.Name) and v.value.id == sn and v.attr == fld:
-                    plain = True
-            if deg[fld] == 1:
-                ok = scaled and not plain
-                r2.ob(ok, f"{c.name}.__mul__: extensive `{fld}` multiplied by {fname}")
-                if not ok:
-                    rep.finding("R8.2", f, stores[0][1] if stores else f.node,
-                                f"`{fld}` is extensive (fill adds weight-proportional amounts to it) but __mul__ does not store "
-                                f"`{fname} * {sn}.{fld}`: the scaled aggregator differs from refilling with scaled weights",
-                                stmt=f"extensive {fld} not scaled")
-            else:
-                ok = plain and not scaled
-                r2.ob(ok, f"{c.name}.__mul__: intensive `{fld}` copied unscaled")
-                if not ok:
-                    rep.finding("R8.2", f, stores[0][1] if stores else f.node,
-                                f"`{fld}` is intensive (degree 0 in the weights in fill) but __mul__ " +
-                                ("multiplies it by the factor" if scaled else "does not carry it over") +
-                                ": means/extrema must be unchanged by scaling", stmt=f"intensive {fld} " + ("scaled" if scaled else "dropped"))
-        for s in m.slots:
-            scaled = any(any(p == sn and fl == s and fv == "full" for (p, fl, fv, z) in labs) for labs, node in ms)
-            r2.ob(scaled, f"{c.name}.__mul__: child slot `{s}` scaled by {fname}")
-            if not scaled:
-                rep.finding("R8.2", f, f.node, f"children in `{s}` are never multiplied by `{fname}`: the parent's entries scale but "
-                            f"this subtree keeps its old weights", stmt=f"slot {s} not scaled")
+        scaling_rule(repo, rep, r2, c, m, f, sn, fname)
         # ---------------- R8.3
         rm = repo.own_method(c, "__rmul__")
         body = [x for x in rm.node.body if not (isinstance(x, ast.Expr) and isinstance(x.value, ast.Constant))]
@@ -330,6 +274,67 @@ def run(repo, rep, tier):
     if not ok:
         rep.finding("R8.5", f, f.node, "Count.__mul__ does not refuse a non-identity transform before computing: scaling a "
                     "sum of transformed weights by f is not the sum of transformed scaled weights", stmt="transform guard")
+
+
+def scaling_rule(repo, rep, r2, c, m, f, sn, fname, rule="R8.2"):
+    """R8.2 / R5.4: the scaling table derived from fill by homogeneity, checked against __mul__."""
+    fill = repo.own_method(c, "fill")
+    tables = degree_table(repo, c, m, fill)
+    if len(tables) != 1:
+        raise AnalysisError(f"{c.name}: homogeneity degrees of the accumulators are not uniquely determined by fill ({tables})")
+    deg = tables[0]
+    dict_fields = [s for s, k in m.slot_kind.items() if k == "dict"] + (["values"] if m.name == "Bag" else [])
+    ft = FieldTaint(repo, c, f, [sn], dict_fields, extra_roots=[])
+    # result variable(s): locals assigned from self.zero() or a constructor
+    outs = set()
+    for n in walk_local_stmt(f.node):
+        if isinstance(n, ast.Assign) and len(n.targets) == 1 and isinstance(n.targets[0], ast.Name) and isinstance(n.value, ast.Call):
+            outs.add(n.targets[0].id)
+    ft = FieldTaint(repo, c, f, [sn], dict_fields, extra_roots=outs)
+
+    def mults():
+        """[(labels of the non-factor operand, node)] for every `x * factor` / `factor * x`"""
+        out = []
+
+        def visit(node, env):
+            if isinstance(node, ast.BinOp) and isinstance(node.op, ast.Mult):
+                for a, b in ((node.left, node.right), (node.right, node.left)):
+                    if isinstance(a, ast.Name) and a.id == fname:
+                        out.append((ft.L(b, env), node))
+        ft.visit_exprs(f.node, visit)
+        return out
+
+    ms = mults()
+    for fld in m.acc:
+        stores = [(labs, node, kind) for o in outs for (labs, node, kind) in ft.field_stores.get((o, fld), [])]
+        scaled = any(any(p == sn and fl == fld and fv == "full" for (p, fl, fv, z) in labs) for labs, node in ms)
+        plain = False
+        for labs, node, kind in stores:
+            v = node.value
+            if isinstance(v, ast.Attribute) and isinstance(v.value, ast.Name) and v.value.id == sn and v.attr == fld:
+                plain = True
+        if deg[fld] == 1:
+            ok = scaled and not plain
+            r2.ob(ok, f"{c.name}.__mul__: extensive `{fld}` multiplied by {fname}")
+            if not ok:
+                rep.finding(rule, f, stores[0][1] if stores else f.node,
+                            f"`{fld}` is extensive (fill adds weight-proportional amounts to it) but __mul__ does not store "
+                            f"`{fname} * {sn}.{fld}`: the scaled aggregator differs from refilling with scaled weights",
+                            stmt=f"extensive {fld} not scaled")
+        else:
+            ok = plain and not scaled
+            r2.ob(ok, f"{c.name}.__mul__: intensive `{fld}` copied unscaled")
+            if not ok:
+                rep.finding(rule, f, stores[0][1] if stores else f.node,
+                            f"`{fld}` is intensive (degree 0 in the weights in fill) but __mul__ " +
+                            ("multiplies it by the factor" if scaled else "does not carry it over") +
+                            ": means/extrema must be unchanged by scaling", stmt=f"intensive {fld} " + ("scaled" if scaled else "dropped"))
+    for s in m.slots:
+        scaled = any(any(p == sn and fl == s and fv == "full" for (p, fl, fv, z) in labs) for labs, node in ms)
+        r2.ob(scaled, f"{c.name}.__mul__: child slot `{s}` scaled by {fname}")
+        if not scaled:
+            rep.finding(rule, f, f.node, f"children in `{s}` are never multiplied by `{fname}`: the parent's entries scale but "
+                        f"this subtree keeps its old weights", stmt=f"slot {s} not scaled")
 
 
 def expr_kind(e):
